@@ -144,6 +144,18 @@ func (r *Runner) runHistory(it *spec.Item) {
 									c := &caseCtx{it, gshow, v.Name, st.rule, in, memo == 1, false}
 									hs := strings.Join(hist, " -> ")
 									r.mismatch(c, "C12", "history", "fresh parser on "+show(in)+": "+fresh[skey(st)], "after history "+hs+": "+got, cfg+"|"+hs)
+									if memo == 0 {
+										// is it the memo table that makes the difference? the same history without memoisation
+										inst2 := pkg.New(u, size, true)
+										var o2 obs.Obs
+										for j := 0; j <= k; j++ {
+											o2 = inst2.Step(obs.Req{Input: steps[idx[j]].in, Rule: steps[idx[j]].rule, Want: want})
+										}
+										if ser(o2) == fresh[skey(st)] {
+											r.eval("C06", true, fmt.Sprintf("%d|hist-memo|%s|%s", it.Idx, v.Name, hs), nil)
+											r.mismatch(c, "C06", "memo-visible-on-reused-instance", "as with DisableMemoize after the same history: "+fresh[skey(st)], "with memoisation, after history "+hs+": "+got, cfg+"|"+hs)
+										}
+									}
 									return // later steps of this history run on a polluted instance
 								}
 							}
